@@ -400,7 +400,10 @@ def project_text(ty, untyped):
 C12_SETUP = ["init %s I3" % hexs("a"), "init %s F4004000000000000" % hexs("b"), "init %s S%s" % (hexs("c"), hexs("xy")),
              "init %s B1" % hexs("x"), "init %s T(I1,I2)" % hexs("y"), "init %s E" % hexs("z"),
              "setfn %s id" % hexs("f"), "setfn %s swap" % hexs("g"), "setfn %s fail:%s" % (hexs("h"), hexs("boom")),
-             "setfn %s needfloat" % hexs("nf"), "setfn %s neednumber" % hexs("nn"), "setfn %s konst:I-7" % hexs("min")]
+             "setfn %s needfloat" % hexs("nf"), "setfn %s neednumber" % hexs("nn"), "setfn %s konst:I-7" % hexs("min"),
+             "init %s T()" % hexs("e0"), "init %s T(I7)" % hexs("t1"), "init %s T(T(I1,E),S,T())" % hexs("t3"), "init %s F7ff8000000000000" % hexs("qn"),
+             "init %s S" % hexs("s0"), "init %s I-9223372036854775808" % hexs("mn"), "init %s F8000000000000000" % hexs("nz"), "init %s Ffff0000000000000" % hexs("ni"),
+             "setfn %s konst:T()" % hexs("mk0"), "setfn %s konst:T(E)" % hexs("mk1")]
 C12_STRINGS = ["a = 1; a", "1", "1.5", '"s"', "true", "(1,2)", "()", "", "a", "b", "c", "x", "y", "z", "1 +", ")", "(",
                "a += 1", "a + b", "f(a)", "g(1,2)", "h(1)", "a = 5", "q = 1; q", "q", "9223372036854775807", "2^62",
                "1/0", "a; b; c", "a,b", "y == (1,2)", "c + \"z\"", "!x", "-a", "\"", "1e400", "0x10", "a = \"s\"",
@@ -415,6 +418,8 @@ C12_STRINGS = ["a = 1; a", "1", "1.5", '"s"', "true", "(1,2)", "()", "", "a", "b
                '"a" = 3; a', '"x" += 1', "3 = 4", '("a" + "b") = true; ab', '"c" = "s"; c', '"q" = 1; q', "(a) = 4; a",
                "false && 1", "true || missing", "false && 1/0", "true || 1/0", "false && missing", "x || 1", "!x && 1", "false && (a = 1)",
                "\ufeff1 + 2", "\ufeffx", "\ufeff", "\ufeff a", "a\ufeff", "\u200b1", "1 +\ufeff 2",
+               "e0", "t1", "t3", "qn", "s0", "mn", "nz", "ni", "mk0()", "mk1()", "f(e0)", "(e0, t1)", "e0 == t1", "qn == qn", "s0 + s0", "-mn", "mn - 1", "nz * 1", "len(e0)", "len(s0)",
+               "str::from(t3)", "typeof(e0)", "q2 = e0; q2", "q3 = mk0(); q3", "math::abs(mn)", "nz + nz", "min(1, 2)", "typeof(min)",
                "1 / 0; (", "a = 1; )", "k = 8; b =", "missing; 1 +", "h(1); )", "a = 2; 1 2", "a = 2; (1,", "f(1); a = 3; \"",
                "nf(1)", "nf(1.5)", "nf(a)", "nf(b)", "nf(c)", "nn(c)", "nn(a)", "nf a", "nf(1) + 1", "nf(x)", "nn(y)", "nf(())"]
 # consecutive evaluations of strings that differ only in separators inside or between tokens: each is evaluated on its own
@@ -649,7 +654,7 @@ def c02_gen(tier, rng):
         cases.append(ast_tree_case(e, rng, rng.choice(["space", "tight", "random"])))
     # long chains at one precedence level and deep nesting
     for kind in ("right", "left", "neg", "call", "paren", "tuple", "chainr", "assign"):
-        for d in (8, 15, 33, 70, 140) if tier == "quick" else range(8, 400, 7):
+        for d in (8, 15, 33, 63, 64, 65, 70, 140, 255, 256, 257, 400) if tier == "quick" else range(8, 600, 7):
             cases.append(ast_tree_case(G.parenthesize(deep_ast(kind, d)), rng, "tight"))
     for op in G.BINOPS:
         for d in (9, 40):
@@ -687,7 +692,7 @@ def c05_gen(tier, rng):
         cases.append(ast_tree_case(e, rng, rng.choice(["space", "tight"])))
     # open chains and tuples on every level of deep parenthesis nesting
     for shape in range(4):
-        for d in (5, 9, 10, 11, 12, 16, 17, 18, 31, 32, 33, 34, 64, 65, 100) if tier == "quick" else range(3, 160, 2):
+        for d in (5, 9, 10, 11, 12, 16, 17, 18, 31, 32, 33, 34, 64, 65, 100, 127, 128, 129, 255, 256, 257) if tier == "quick" else range(3, 300, 2):
             e = ("lit", "7", "I7")
             for i in range(d):
                 inner = ("paren", e)
@@ -973,6 +978,15 @@ def c13_gen(tier, rng):
     for cx in ctxs:
         for fr in frags:
             cases.append(c13_case(cx.format(fr).split()))
+    # deep nesting: balanced input is never reported as unbalanced, whatever the depth; one parenthesis too many or too few always is
+    for d in (20, 40, 63, 64, 65, 70, 127, 128, 129, 255, 256, 257, 300, 600, 1000):
+        for inner in (["1"], ["a", "+", "1"], ["f", "(", "1", ")"], ["1", ",", "2"], []):
+            cases.append(c13_case(["("] * d + inner + [")"] * d))
+            cases.append(c13_case(["("] * (d + 1) + inner + [")"] * d))
+            cases.append(c13_case(["("] * d + inner + [")"] * (d + 1)))
+        cases.append(c13_case(["f", "("] * d + ["1"] + [")"] * d))
+        cases.append(c13_case(["(", "1", ","] * d + ["2"] + [")"] * d))
+        cases.append(c13_case(["-", "("] * d + ["1", "+"] + [")"] * d))
     # an operator directly after an operator, followed by two operands
     ops_all = sorted(BINARY_TOKENS) + ["-", "!", ",", ";"]
     for o1 in ops_all:
@@ -1784,7 +1798,7 @@ PROPS["C11"] = {
 # ---------------------------------------------------------------------------------------------
 C04_NAMES = ["a", "b"]
 # more names for the histories: most steps still use a / b so that the steps keep interacting
-C04_MORE_NAMES = ["A", "a1", "_c", "math::x", "ab", "ba", "c", "d", "e2", "zz", "aa", "B"]
+C04_MORE_NAMES = ["A", "a1", "_c", "math::x", "ab", "ba", "c", "d", "e2", "zz", "aa", "B", "max", "len", "if", "min", "typeof", "str::from", "math::pi"]
 # names that only the API can use (not identifiers of the language)
 C04_API_NAMES = ["", " a", "a ", "é", "true", "1", "a+b", "variables"]
 C04_SEQ_LITERALS = {"T(I1,I2)": "(1, 2)", "E": "()", "T(I1,I2,I3)": "(1, 2, 3)", "T(E,I1)": "(, 1)", "T(I1,F4004000000000000)": "(1, 2.5)",
@@ -2397,6 +2411,12 @@ def c14_oracle(case, out, model_out):
             want = (",".join(nodes_l), str(len(rest)), rest[-1] if rest else "-", "".join(x + ";" for x in rest))
             if (seen, cnt, last, folded) != want:
                 return "Node::iter() of %r used through next() x%d then for_each / count / last / fold gives %s, the pre-order traversal gives %s" % (m["src"], k, (seen, cnt, last, folded), want)
+    f2 = re.search(r"free2<(ERR (?:Variable|Function)IdentifierNotFound\(([0-9a-f]*)\))>", out)
+    if f2 and "occ" in m:
+        pre2 = {"R": "ivr", "W": "ivw", "F": "if"}
+        names = [hexs(pre2[c] + nm) for c, nm in m["occ"] if (c in "RW") == ("Variable" in f2.group(1))]
+        if f2.group(2) not in names:
+            return "after rewriting the identifiers of %r, evaluation without a context reports %s, not one of the rewritten names %s" % (m["src"], f2.group(1), names[:20])
     md = re.search(r"mid<([^>]*)>", out)
     if md and "occ" in m:
         pre1 = {"R": "r", "W": "", "F": ""}
@@ -2639,6 +2659,13 @@ def c06_gen(tier, rng):
         for good, val in [('"def"', "S" + hexs("def")), ('"" + "g"', "S" + hexs("g")), ('len("hi")', "I2"), ('("p", "q")', "T(S70,S71)")]:
             cases.append((G.script("H", ["evc sfv " + hexs(bad), "evc sfv " + hexs(good), "evc smv " + hexs(bad), "evc srv " + hexs(good), "evc build " + hexs(bad), "evc nfv " + hexs(good)]),
                           {"kind": "literal-seq", "src": bad + "  then  " + good, "want": "OK " + val}))
+    for ln in (10, 31, 32, 33, 63, 64, 65, 127, 128, 255, 256, 257, 1000, 4000):
+        w = "".join(rng.choice("abcxyz_019") for _ in range(ln - 1))
+        tree("v" + w, "OK (RootNode (Read:%s))" % hexs("v" + w))
+        t = "".join(rng.choice("ab \\\"ä€") for _ in range(ln))
+        tree(quote(t), "OK (RootNode (Const:S%s))" % hexs(t))
+        tree("1" * ln if ln <= 18 else "0" * (ln - 5) + "12345", "OK (RootNode (Const:I%d))" % (int("1" * ln) if ln <= 18 else 12345))
+        tree("0." + "0" * ln + "5", "OK (RootNode %s)" % F("0." + "0" * ln + "5"))
     tree("2e-3x", "OK (RootNode (Sub (Read:%s) (Read:%s)))" % (hexs("2e"), hexs("3x")))
     tree("1e+2e", "OK (RootNode (Add (Read:%s) (Read:%s)))" % (hexs("1e"), hexs("2e")))
     tree("1e-3.5.1", "OK (RootNode (Sub (Read:%s) (Read:%s)))" % (hexs("1e"), hexs("3.5.1")))
@@ -2727,6 +2754,11 @@ def c07_gen(tier, rng):
                     lead += "".join(G.rand_separator(rng, True, False) for _ in range(rng.randint(3, 12)))
                 src = lead + src + trail
             cases.append(("TREE\t" + hexs(src), {"kind": "sep-variant", "group": group, "src": src, "tokens": toks}))
+        if group % 3 == 0:
+            srcs = [c[1]["src"] for c in cases[-4:] if c[1].get("group") == group]
+            r3 = G.render(toks, rng, "random")
+            order = srcs + [r3, srcs[0], " ".join(toks)]
+            cases.append((G.script("EB", ["evc build " + hexs(x) for x in order]), {"kind": "sep-sequence", "srcs": order, "tokens": toks}))
         group += 1
     # every Unicode whitespace character separates, one at a time
     for w in G.WHITESPACE:
@@ -2761,6 +2793,11 @@ def c07_gen(tier, rng):
 
 def c07_oracle(case, out, model_out):
     m = case[1]
+    if m.get("kind") == "sep-sequence" and not out.startswith("PANIC"):
+        st = step_outputs(out)
+        for k in range(1, len(m["srcs"])):
+            if st[k] != st[0]:
+                return "renderings of the token sequence %s precompiled one after the other in one process: %r -> %s but %r -> %s" % (m["tokens"], m["srcs"][0], st[0][:200], m["srcs"][k], st[k][:200])
     if m.get("kind") in ("non-ws", "unterminated", "in-string") and out != m["want"]:
         return "%r precompiles to %s, expected %s" % (m["src"], out[:200], m["want"][:200])
     return None
